@@ -21,6 +21,7 @@ class Recorder(object):
     def __init__(self):
         self.parsers = []
         self.parsed = []
+        self.fail_next = False      # lxml refuses unicode input that carries an encoding declaration
 
     def XMLParser(self, **kw):
         p = ('parser', len(self.parsers))
@@ -34,6 +35,9 @@ class Recorder(object):
 
     def XMLID(self, string, parser=None):
         self.parsed.append((string, parser))
+        if self.fail_next and not isinstance(string, bytes) and not getattr(string, 'is_bytes', False):
+            self.fail_next = False
+            raise ValueError('Unicode strings with encoding declaration are not supported.')
         return ('doc', len(self.parsed)), {}
 
     XMLSyntaxError = xml_mod.etree.XMLSyntaxError
@@ -130,4 +134,42 @@ def safe_defaults(sx, pname):
                 ok.append(e.faultcode.startswith('Client'))
         finally:
             os.unlink(path)
+    return sx.And(*ok)
+
+
+@harness('C17', params=sorted(PROTS), functions=['spyne.protocol.xml.XmlDocument.__init__',
+                                                 'spyne.protocol.xml.XmlDocument.create_in_document',
+                                                 'spyne.protocol.soap.soap11._parse_xml_string'],
+         bounds={'options': 'two protocol instances constructed one after the other, each with twelve independent '
+                            'symbolic options; requests with and without a declared charset, including the path on '
+                            'which lxml refuses the decoded text and the bytes are parsed again'})
+def parser_options_isolated(sx, pname):
+    """the options of one protocol instance are not affected by constructing another one, and every parse
+    attempt of a request - including the retry after lxml refused decoded text - uses the hardened parser"""
+    P = PROTS[pname]
+    o1 = dict((k, sx.bool('a_' + k)) for k in OPTS)
+    o2 = dict((k, sx.bool('b_' + k)) for k in OPTS)
+    p1 = P(**o1)
+    p2 = P(**o2)
+    rec = Recorder()
+    charset = sx.choose('charset', [None, 'utf-8'])
+    refuse = sx.choose('lxml_refuses_text', [False, True]) if (charset and pname != 'XmlDocument') else False
+    ok = []
+    with patched(rec):
+        for prot, opts in ((p1, o1), (p2, o2), (p1, o1)):
+            n0, m0 = len(rec.parsers), len(rec.parsed)
+            rec.fail_next = refuse
+            try:
+                prot.create_in_document(FakeContext(in_string=[b'<a/>']), charset)
+            except Fault:
+                return False
+            if len(rec.parsers) != n0 + 1:
+                return False
+            kw = rec.parsers[n0]
+            for k in OPTS:
+                ok.append(sx.eq(kw.get(k), opts[k]))
+            attempts = rec.parsed[m0:]
+            ok.append(len(attempts) == (2 if refuse else 1))
+            for string, parser in attempts:
+                ok.append(parser == ('parser', n0))         # never the library's default parser
     return sx.And(*ok)
